@@ -338,6 +338,8 @@ impl Ctx {
     pub fn write_replay<C: Serialize>(&self, part: &str, case: &C, f: &Failure) -> PathBuf {
         let dir = verif_root().join("replays/out");
         let _ = std::fs::create_dir_all(&dir);
+        // "part/regressions" (committed replays re-run) is stored under its base part name
+        let part = part.split('/').next().unwrap_or(part);
         let body = json!({
             "property": self.prop,
             "part": part,
